@@ -16,3 +16,14 @@ T1=$(date +%s)
 git -C /repo checkout -- .
 echo "SEED $PID demo_unpatched=$D0 demo_patched=$D1 check_exit=$RC wall=$((T1-T0))s  $(grep -c '^VIOLATION' /tmp/seedtest.$PID.out) violation lines"
 grep -m3 -A1 '^VIOLATION' /tmp/seedtest.$PID.out | cut -c1-300
+FIRST=$(grep -m1 -A1 '^VIOLATION' /tmp/seedtest.$PID.out | tail -1 | cut -c1-400)
+python3 - "$PID" "$D0" "$D1" "$RC" "$(grep -c '^VIOLATION' /tmp/seedtest.$PID.out)" "$((T1-T0))" "$FIRST" <<'PYEOF'
+import json, sys, os
+pid, d0, d1, rc, nv, wall, first = sys.argv[1:8]
+p = "/verif/seeded/RESULTS.json"
+res = json.load(open(p)) if os.path.exists(p) else {}
+old = res.get(pid, {})
+old.update({"demo_unpatched": int(d0), "demo_patched": int(d1), "check_exit": int(rc), "violations": int(nv), "wall_s": int(wall), "first": first.strip()})
+res[pid] = old
+json.dump(res, open(p, "w"), indent=1, sort_keys=True)
+PYEOF
